@@ -158,6 +158,14 @@ class Prop:
     # known (open) findings: name -> predicate(case, violation) -> bool
     known_predicates = {}
 
+    def shrink_candidates(self, case):
+        """None (use Hypothesis' shrinker) or an iterable of smaller cases."""
+        return None
+
+    def signature(self, case):
+        """Root-cause hint of a *shrunk* case (used to tell findings apart)."""
+        return ""
+
     def excluded(self, case):
         """True when the case belongs to an open known-finding class and is
         excluded by construction (counted, not checked)."""
